@@ -28,6 +28,7 @@ static void loadConfig(const json::Object &o) {
   if (auto v = o.getInteger("track")) CFG.track = *v;
   if (auto v = o.getInteger("maxSteps")) CFG.maxSteps = *v;
   if (auto v = o.getInteger("maxPaths")) CFG.maxPaths = *v;
+  if (auto v = o.getInteger("maxWallSec")) CFG.maxWallSec = *v;
   if (auto v = o.getInteger("loopFuel")) CFG.loopFuel = *v;
   if (auto v = o.getInteger("concrMax")) CFG.concrMax = (int)*v;
   if (auto v = o.getInteger("widenAfter")) CFG.widenAfter = (int)*v;
@@ -235,6 +236,7 @@ int main(int argc, char **argv) {
     cellTrace() = CellTrace();
     E.work.push_back(std::move(S));
     int64_t npaths = 0, ndedup = 0; bool budget = false;
+    CellDeadline = time(nullptr) + CFG.maxWallSec;
     std::map<std::string, int> recs; std::vector<std::string> order;
     while (!E.work.empty()) {
       State T = std::move(E.work.back()); E.work.pop_back();
@@ -248,7 +250,7 @@ int main(int argc, char **argv) {
         recs[r]++;
       }
       E.done.clear();
-      if (npaths > CFG.maxPaths) { budget = true; break; }
+      if (npaths > CFG.maxPaths || time(nullptr) > CellDeadline) { budget = true; break; }
     }
     if (!CFG.traceRegions.empty()) {
       O << ",\"reads\":{"; bool f = true;
